@@ -211,7 +211,44 @@ def stream_aux_collisions(rng, b, g, lgk, tier):
     b.raw(g, (0,))
 
 
-STREAMS = [stream_hashed, stream_random_coupons, stream_set_collisions, stream_cur_min, stream_aux_collisions]
+def stream_aux_boundary(rng, b, g, lgk, tier):
+    """the Hll4 exception boundary: a register exactly at cur_min + 15 (smallest exception), one at
+    cur_min + 16 and one at cur_min + 14; then cur_min shifts (the +15 one returns to its nibble, the
+    +16 one stays an exception with the smallest possible value); then larger values in those slots"""
+    k = 1 << lgk
+    slots = list(range(k))
+    rng.shuffle(slots)
+    z, a, bb, c = slots[0], slots[1], slots[2], slots[3]
+    hi = lambda: rng.getrandbits(26 - lgk) << lgk
+    base = rng.choice([0, 0, 1, 5])
+    for rounds in range(rng.choice([1, 2, 3])):
+        level = base + 1
+        for s in slots[1:]:
+            b.cpn(g, cp(s | hi(), level))
+        if base > 0 or rounds > 0:
+            pass
+        b.cpn(g, cp(a | hi(), base + 15))
+        b.cpn(g, cp(bb | hi(), base + 16))
+        b.cpn(g, cp(c | hi(), base + 14))
+        b.check(g, rng, full=(lgk <= 10))
+        b.raw(g, (0,))
+        b.cpn(g, cp(z | hi(), level))                 # the last register at cur_min: cur_min shifts
+        b.check(g, rng, full=(lgk <= 10))
+        b.cpn(g, cp(bb | hi(), base + 16))            # duplicate of a live exception: no-op
+        b.cpn(g, cp(bb | hi(), min(63, base + 21)))   # larger value in the exception slot
+        b.cpn(g, cp(a | hi(), min(63, base + 17)))    # the returned nibble becomes an exception again
+        b.cpn(g, cp(c | hi(), min(63, base + 16 + 1)))
+        b.check(g, rng, full=(lgk <= 10))
+        base = level
+        z = slots[0]
+        # next round: every register is >= level; lower one slot's relative position by raising all others
+        if base + 22 > 63:
+            break
+    b.check(g, rng)
+
+
+STREAMS = [stream_hashed, stream_random_coupons, stream_set_collisions, stream_cur_min, stream_aux_collisions,
+           stream_aux_boundary]
 
 
 def gen_case(rng, cid, tier, focus=None):
@@ -222,7 +259,7 @@ def gen_case(rng, cid, tier, focus=None):
     kind = rng.choice(STREAMS + [stream_hashed, stream_cur_min])
     if lgk > 16:
         kind = rng.choice([stream_hashed, stream_set_collisions, stream_random_coupons])
-    if kind is stream_cur_min and lgk > (9 if tier == "quick" else 12):
+    if kind in (stream_cur_min, stream_aux_boundary) and lgk > (9 if tier == "quick" else 12):
         lgk = rng.choice([4, 5, 6, 7, 8, 9])
     b = Builder(lgk)
     kind(rng, b, 0, lgk, tier)
@@ -338,8 +375,8 @@ def feed_ops(rng, lgk, tier, kinds=None):
     """the feed operations (codes 1, 2) of one of the C02 stream kinds"""
     b = Builder(lgk)
     kind = rng.choice(kinds or [stream_hashed, stream_hashed, stream_random_coupons, stream_set_collisions, stream_cur_min,
-                                stream_aux_collisions])
-    if kind is stream_cur_min and lgk > 9:
+                                stream_aux_collisions, stream_aux_boundary])
+    if kind in (stream_cur_min, stream_aux_boundary) and lgk > 9:
         kind = stream_hashed
     kind(rng, b, 0, lgk, tier)
     return [(c, a) for (c, a) in b.ops if c in (1, 2)], kind.__name__[7:]
@@ -515,7 +552,17 @@ def kxq_of(regs):
 
 def rand_regs(rng, lgk, typ):
     k = 1 << lgk
-    style = rng.choice(["sparse", "dense", "high", "curmin"])
+    style = rng.choice(["sparse", "dense", "high", "curmin", "boundary"])
+    if style == "boundary":
+        # the smallest possible exception (cur_min + 15) next to cur_min + 14 and cur_min + 16
+        base = rng.randint(0, 47)
+        regs = [base + rng.choice([0, 1, 2, 13, 14]) for _ in range(k)]
+        regs[rng.randrange(k)] = base
+        for s_, d in zip(rng.sample(range(k), 3), (15, 16, 14)):
+            regs[s_] = base + d
+        if regs.count(base) == 0:
+            regs[0] = base
+        return regs
     if style == "sparse":
         regs = [0] * k
         for s in rng.sample(range(k), max(1, k // 8)):
